@@ -12,7 +12,7 @@ Local Open Scope N_scope.
 
 Section Dead.
 Variable x : str.
-Variables e1 e2 : cexpr.
+Variables e1 e2 : list frame.      (* the dead frames on the left / on the right (either may be empty) *)
 
 Definition rm (vs : list str) : list str := filter (fun y => negb (str_eqb y x)) vs.
 
@@ -52,7 +52,7 @@ with erel : list frame -> list frame -> list str -> bool -> Prop :=
 | ER_obj ls ls' i c rest rest' vs io :
     Forall2 lrel ls ls' -> erel rest rest' vs io -> erel (FObj ls i c :: rest) (FObj ls' i c :: rest') vs true
 | ER_dead rest rest' vs io :
-    erel rest rest' vs io -> erel (FVars [] [(x, e1)] :: rest) (FVars [] [(x, e2)] :: rest') (rm vs) io
+    erel rest rest' vs io -> erel (e1 ++ rest) (e2 ++ rest') (rm vs) io
 with lrel : layer -> layer -> Prop :=
 | LR_intro locals asserts fields fields' en en' std vs io :
     erel en en' vs io ->
@@ -70,10 +70,17 @@ Definition lsrel (ls ls' : list layer) : Prop := Forall2 lrel ls ls'.
 Definition tsrel (l l' : list thunk) : Prop := Forall2 trel l l'.
 Definition bvrel (b b' : list (str * thunk)) : Prop := Forall2 (fun p p' => fst p = fst p' /\ trel (snd p) (snd p')) b b'.
 
+(* dead frames bind nothing but x and hold no object *)
+Definition dead_ok (fs : list frame) : Prop :=
+  forall en, (forall y, y <> x -> lookup_var y (fs ++ en) = lookup_var y en) /\ lookup_obj (fs ++ en) = lookup_obj en.
+Definition dead_pair : Prop := dead_ok e1 /\ dead_ok e2.
+Hypothesis Hd : dead_pair.
+
 (* ---- environments ---- *)
 Lemma erel_hasobj : forall en en' vs io, erel en en' vs io -> hasobj en = io /\ hasobj en' = io.
 Proof.
-  induction 1; simpl; auto.
+  induction 1 as [| | | rest rest' vs io Hrest IH]; simpl; auto.
+  unfold hasobj in *. destruct Hd as [H1 H2]. rewrite (proj2 (H1 rest)), (proj2 (H2 rest')). exact IH.
 Qed.
 
 Lemma bvrel_names b b' : bvrel b b' -> map fst b = map fst b'.
@@ -106,14 +113,15 @@ Proof.
         -- exfalso. apply (in_assoc_some y b Hy). exact E1.
         -- apply in_app_or in Hy. destruct Hy as [Hy | Hy]; [exfalso; apply (in_assoc_some y r Hy); exact Er | exact Hy].
   - simpl. apply IH. exact Hy.
-  - apply in_rm in Hy. destruct Hy as [Hy Hne]. simpl.
-    destruct (str_eqb y x) eqn:E; [apply str_eqb_eq in E; contradiction|]. apply IH. exact Hy.
+  - apply in_rm in Hy. destruct Hy as [Hy Hne]. destruct Hd as [H1 H2].
+    rewrite (proj1 (H1 rest) y Hne), (proj1 (H2 rest') y Hne). apply IH. exact Hy.
 Qed.
 
 Lemma erel_lookup_obj : forall en en' vs io, erel en en' vs io -> io = true ->
   exists ls ls' i c, lookup_obj en = Some (ls, i, c) /\ lookup_obj en' = Some (ls', i, c) /\ lsrel ls ls'.
 Proof.
-  induction 1; intros Hio; try discriminate; simpl; eauto 10.
+  induction 1 as [| | | rest rest' vs io Hrest IH]; intros Hio; try discriminate; simpl; eauto 10.
+  destruct Hd as [H1 H2]. rewrite (proj2 (H1 rest)), (proj2 (H2 rest')). apply IH. exact Hio.
 Qed.
 
 (* ---- layers ---- *)
@@ -259,3 +267,12 @@ Proof.
 Qed.
 
 End Dead.
+
+Lemma dead_ok_nil x : dead_ok x [].
+Proof. intros en. split; reflexivity. Qed.
+
+Lemma dead_ok_local x e : dead_ok x [FVars [] [(x, e)]].
+Proof.
+  intros en. split; [|reflexivity]. intros y Hne. simpl.
+  destruct (str_eqb y x) eqn:E; [apply str_eqb_eq in E; contradiction | reflexivity].
+Qed.
